@@ -1,6 +1,7 @@
 package main
 
 import (
+	"os"
 	"fmt"
 	"sort"
 	"strings"
@@ -114,6 +115,22 @@ func genYModsCase(r *Rng) Case {
 			}
 		}
 	}
+	// submodules (of mc): mc includes mcs1, which may include mcs2; mc may or may not list mcs2 itself
+	if r.Chance(35) {
+		s1 := mspec{"name": "mcs1", "includes": []any{}}
+		s2 := mspec{"name": "mcs2", "includes": []any{}}
+		inc := []any{"mcs1"}
+		if r.Chance(60) {
+			s1["includes"] = []any{"mcs2"}
+			if r.Chance(50) {
+				inc = append(inc, "mcs2")
+			}
+		} else {
+			inc = append(inc, "mcs2")
+		}
+		all["mc"]["subs"] = []any{s1, s2}
+		all["mc"]["includes"] = inc
+	}
 	c := Case{"k": "ymods", "mods": specs, "extraImports": []any{}, "fault": "none"}
 	// one fault in 45 % of the cases
 	if r.Chance(45) {
@@ -123,7 +140,10 @@ func genYModsCase(r *Rng) Case {
 		last := func(kind string) mspec { l := carr(s, kind); return l[len(l)-1].(mspec) }
 		f := pick(r, []string{"feature-cycle", "identity-cycle", "typedef-cycle-used", "typedef-cycle-unused", "grouping-cycle", "grouping-cycle-nested",
 			"import-cycle", "import-self", "import-missing", "unknown-prefix", "unknown-typedef", "unknown-grouping", "unknown-feature", "unknown-identity",
-			"dup-feature", "dup-identity", "dup-typedef", "dup-grouping", "bad-augment-path", "dev-race"})
+			"dup-feature", "dup-identity", "dup-typedef", "dup-grouping", "bad-augment-path", "dev-race", "include-cycle", "include-missing"})
+		if (f == "include-cycle" || f == "include-missing") && all["mc"]["subs"] == nil {
+			f = "feature-cycle"
+		}
 		c["fault"] = f
 		c["faultMod"] = m
 		switch f {
@@ -200,6 +220,13 @@ func genYModsCase(r *Rng) Case {
 			s["typedefs"] = append(carr(s, "typedefs"), mspec{"n": cstr(first("typedefs"), "n"), "base": "string"})
 		case "dup-grouping":
 			s["groupings"] = append(carr(s, "groupings"), mspec{"n": cstr(first("groupings"), "n"), "leaf": m + "dupl", "uses": []any{}, "nest": "direct"})
+		case "include-cycle": // between the two submodules, whether or not mc lists the second one itself
+			subs := carr(all["mc"], "subs")
+			subs[0].(mspec)["includes"] = []any{"mcs2"}
+			subs[1].(mspec)["includes"] = []any{"mcs1"}
+		case "include-missing":
+			subs := carr(all["mc"], "subs")
+			subs[r.Intn(2)].(mspec)["includes"] = []any{"nosub"}
 		case "bad-augment-path":
 			all["mc"]["augpath"] = "/ma:nosuch"
 		case "dev-race":
@@ -266,6 +293,9 @@ func renderMod(c Case, s mspec) string {
 	}
 	if extraSelf {
 		fmt.Fprintf(&b, "  import %s { prefix self; }\n", m)
+	}
+	for _, i := range carr(s, "includes") {
+		fmt.Fprintf(&b, "  include %s;\n", i.(string))
 	}
 	for _, f := range carr(s, "features") {
 		fm := f.(mspec)
@@ -339,10 +369,21 @@ func renderMod(c Case, s mspec) string {
 	return b.String()
 }
 
+func renderSub(parent string, s mspec) string {
+	n := cstr(s, "name")
+	var b strings.Builder
+	fmt.Fprintf(&b, "submodule %s { belongs-to %s { prefix %s; }\n", n, parent, parent)
+	for _, i := range carr(s, "includes") {
+		fmt.Fprintf(&b, "  include %s;\n", i.(string))
+	}
+	fmt.Fprintf(&b, "  container %stop { leaf %sl { type string; } }\n}\n", n, n)
+	return b.String()
+}
+
 var modsClasses = []struct{ sub, cls string }{
 	{"Feature cyclic reference", "err:feature-cycle"}, {"Identity cyclic reference", "err:identity-cycle"},
 	{"Typedef cyclic reference", "err:typedef-cycle"}, {"Grouping cycle detected", "err:grouping-cycle"},
-	{"cycle detected", "err:import-cycle"}, {"module not found", "err:ref"}, {"unknown import", "err:ref"},
+	{"cycle detected", "err:import-cycle"}, {"module not found", "err:ref"}, {"unknown submodule", "err:ref"}, {"unknown import", "err:ref"},
 	{"unknown type", "err:ref"}, {"Unknown grouping", "err:ref"}, {"not valid", "err:ref"}, {"Can't find base", "err:ref"},
 	{"Invalid path", "err:ref"}, {"cannot shadow", "err:dup"}, {"Duplicate", "err:dup"}, {"redefinition", "err:dup"}, {"already defined", "err:dup"},
 	{"Property being added", "err:dev"}, {"Only existing", "err:dev"},
@@ -368,6 +409,9 @@ func runYMods(c Case) string {
 	var texts []string
 	for _, s := range carr(c, "mods") {
 		texts = append(texts, renderMod(c, s.(mspec)))
+		for _, sub := range carr(s.(mspec), "subs") {
+			texts = append(texts, renderSub(cstr(s.(mspec), "name"), sub.(mspec)))
+		}
 	}
 	first, firstDump := "", ""
 	unstable := ""
@@ -380,6 +424,9 @@ func runYMods(c Case) string {
 		}
 		ms, err := compileWith(nil, nil, order...)
 		v := modsClass(err)
+		if os.Getenv("YV_DEBUG") != "" {
+			fmt.Fprintf(os.Stderr, "run %d: %v\n", run, err)
+		}
 		if strings.HasPrefix(v, "err") {
 			v = "err" // which of several errors is reported is not fixed; that it is an error is
 		}
